@@ -173,3 +173,19 @@ def bound_by(func_node, value_pat, b=None):
             if r is not None:
                 out.append((n.target.id, n, r))
     return out
+
+
+def bound_by_if(func_node, test_pat, body_pat, else_pat, b=None):
+    """names t defined by the canonical form of  t = <body_pat> if <test_pat> else <else_pat>,  i.e. the statement
+    `if <test_pat>: t = <body_pat>  else: t = <else_pat>`; returns [(t, if-node, binding)]"""
+    out = []
+    for n in _walk(func_node):
+        if isinstance(n, ast.If) and len(n.body) == 1 and len(n.orelse) == 1 and isinstance(n.body[0], ast.Assign) and \
+                isinstance(n.orelse[0], ast.Assign) and len(n.body[0].targets) == 1 and isinstance(n.body[0].targets[0], ast.Name) and \
+                same(n.body[0].targets[0], n.orelse[0].targets[0]):
+            r = mexpr(test_pat, n.test, b)
+            r = mexpr(body_pat, n.body[0].value, r) if r is not None else None
+            r = mexpr(else_pat, n.orelse[0].value, r) if r is not None else None
+            if r is not None:
+                out.append((n.body[0].targets[0].id, n, r))
+    return out
